@@ -282,7 +282,7 @@ def fault_set(ck, d, cmd, has_status, frame_len, thorough):
     lens = range(0, frame_len) if (thorough or frame_len <= 24) else sorted(set(list(range(0, 14)) + [frame_len - 1, frame_len - 2]))
     fs += [('short', n) for n in lens if n < frame_len]
     good = frame_len
-    for _ in range(12 if not thorough else 60):
+    for _ in range(12 if not thorough else 150):
         n = rng.choice([1, 3, 5, 6, 7, 8, 9, 10, 12, 20, good])
         fs.append(('garbled', bytes(rng.choice([0, 0, 255, 0xD5, 0xD7, rng.randrange(256)]) for _ in range(n))))
     fs += [('garbled', bytes.fromhex('0000ff00ff00')), ('garbled', bytes.fromhex('0000ffff0000')),
@@ -301,7 +301,7 @@ def phys_fault_set(ck, d, cmd, has_status, frame_len, thorough):
         if d == 'rcs380' and cmd in (0x04, 0x48):
             fs += [('status32', x) for x in (0x80, 0x400, 0x480, 1, 0x80000000, rng.getrandbits(32))]
         else:
-            fs += [('status', c) for c in (0, 1, 2, 0x0A, 0x27, 0x29, 0x31, 0x7F, 0xFF, rng.randrange(256))]
+            fs += [('status', c) for c in ((0, 1, 2, 0x0A, 0x27, 0x29, 0x31, 0x7F, 0xFF, rng.randrange(256)) if not thorough else range(256))]
         fs.append(('empty',))
     fs += [('errframe',), ('timeout', 'ack'), ('timeout', 'rsp'), ('gone',)]
     for no in IOERRNOS:
@@ -426,7 +426,7 @@ def main():
             if len(trace) > 14:
                 # long register-programming sequences (Type 1 special paths): first, last and sampled commands
                 mid = trace[8:-4]
-                pick = ck.rng.sample(mid, min(len(mid), 4 if quick else 40))
+                pick = ck.rng.sample(mid, min(len(mid), 4 if quick else 150))
                 trace = trace[:8] + sorted(pick) + trace[-4:]
             for (k, cmd, has_status) in trace:
                 flen = max(flens.get(k, 0), 12)
@@ -448,8 +448,10 @@ def main():
                 continue
             trace = list(w.sim.trace)
             flens = dict(w.sim.frame_lens)
-            if len(trace) > 10:
+            if len(trace) > 10 and quick:
                 trace = trace[:6] + trace[-3:]
+            elif len(trace) > 30:
+                trace = trace[:12] + sorted(ck.rng.sample(trace[12:-6], 12)) + trace[-6:]
             for (k, cmd, has_status) in trace:
                 for f in phys_fault_set(ck, d, cmd, has_status, max(flens.get(k, 0), 12), not quick):
                     run.one(d, sc, k, cmd, f, baseline, 'phys')
